@@ -30,6 +30,8 @@ Inductive case : Type :=
 | CReplace (p : param) (i l u : option xnum) (f : option bool) (obs : option param)
 (* Parameters(ps).set_initial_estimates(inits) *)
 | CSetInits (ps : list param) (inits : list (id * xnum)) (obs : option (list param))
+(* Parameters(ps).set_fix(fix) *)
+| CSetFix (ps : list param) (fx : list (id * bool)) (obs : option (list param))
 (* Parameters.create(list of names): accepted? *)
 | CNames (names : list id) (obs : bool)
 (* RandomVariables.create(sequence) / create(single dist) / rvs + dist : accepted? and the resulting names *)
@@ -76,6 +78,16 @@ Definition verdict (c : case) : list nat :=
       match obs with
       | Some r => tag (forallb param_wf r) 11 ++ tag (list_eqb Pos.eqb (map p_name r) (map p_name ps)) 12
       | None => []
+      end ++ tag (forallb param_wf ps) 201
+  | CSetFix ps fx obs =>
+      tag (match set_fix ps fx, obs with
+           | Some a, Some b => list_eqb param_eqb a b
+           | None, None => true
+           | _, _ => false end) 1 ++
+      match obs with
+      | Some r => (if forallb param_wf ps then tag (forallb param_wf r) 11 else []) ++
+                  tag (list_eqb param_eqb r (map (with_fix fx) ps)) 12
+      | None => tag (negb (forallb param_wf ps)) 11      (* raising on well-formed parameters *)
       end ++ tag (forallb param_wf ps) 201
   | CNames names obs =>
       tag (Bool.eqb (names_ok names) obs) 2 ++ (if obs then tag (names_ok names) 12 else [])
